@@ -140,6 +140,7 @@ func (c *Ctx) verifyBody() {
 			}
 		}
 	}
+	c.ghostAt(st, fr, "entry", nil)
 	env := c.specEnvFor(st, fr) // binds the contract's `let` names in the entry state
 	for _, rq := range sp.Requires {
 		st.assume(c.evalBool(env, rq.Expr))
@@ -193,6 +194,21 @@ func (c *Ctx) atReturn(st *State, ret Value, n int) {
 			lbl = fmt.Sprint(i + 1)
 		}
 		c.oblige(st, fmt.Sprintf("%s/ensures#%s", base, lbl), "ensures", t, en.Src, c.Fn.Pos())
+		// vacuity guard: the antecedent of a conditional postcondition must be satisfiable on some returning path
+		if en.Expr.Kind == "binary" && en.Expr.Op == "==>" && st.Disc == nil {
+			func() {
+				defer func() {
+					if r := recover(); r != nil {
+						if _, ok := r.(VerErr); !ok {
+							panic(r)
+						}
+					}
+				}()
+				a := c.evalBool(env, en.Expr.Args[0])
+				c.Obs = append(c.Obs, &Obligation{Name: fmt.Sprintf("%s/vacuity:antecedent#%s", base, lbl), Kind: "canary", Fn: base,
+					PC: append(append([]*Term(nil), st.PC...), a), Claim: False(), Canary: true, Path: st.PathID, Src: en.Expr.Args[0].String()})
+			}()
+		}
 	}
 	c.checkCalls(st, fr, "return")
 	c.checkFrame(st, fr)
@@ -282,7 +298,7 @@ func (c *Ctx) checkFrame(st *State, fr *Frame) {
 		h := st.Heap[k]
 		h0, ok := fr.Old.Heap[k]
 		if !ok {
-			h0 = Var("heap0."+sanitize(k), h.Sort)
+			h0 = Var("heap0."+c.modeTag()+"."+sanitize(k), h.Sort)
 		}
 		if h == h0 {
 			continue
